@@ -1,5 +1,4 @@
 """C19 Update algorithms and solver options give the same timings."""
-import json
 import os
 import shutil
 import tempfile
@@ -15,26 +14,37 @@ META = {
     "technique": "differential between configurations that must agree: the same scripted workload under every cpu/optim x network/optim x "
                  "selective-update setting, every logged date compared with the Full/Full/non-selective run",
     "level_text": "Generated platforms (2-5 hosts of 1-8 cores with 1-3 pstates and optional speed profiles, 3-8 shared / fat-pipe / split-duplex "
-                  "links with optional bandwidth and latency profiles, explicit multi-link routes) and workloads of 3-10 actors (blocking and grouped "
-                  "asynchronous execs with priorities and bounds, direct and rendez-vous comms with optional rate, sleeps, Activity::suspend/resume, "
-                  "Actor::suspend/resume from another actor, Exec::update_priority and Host::set_pstate while activities run, equal activities started "
-                  "together, round durations so that completions tie, 1e-6..1 flop and 1e2..1e5 s activities). Every workload runs under cpu/optim in "
-                  "{Lazy, Full+selective, Full} x network/optim in {Lazy, Full+selective, Full} (9 runs), and the workloads restricted to what the TI "
-                  "model accepts also under cpu/optim:TI x the three network settings (12 runs). Each run logs, at the actor boundary and inside "
+                  "links with optional bandwidth and latency profiles, explicit multi-link routes, LV08 / CM02 / SMPI network model) and workloads of "
+                  "3-10 actors (blocking and grouped asynchronous execs with priorities and bounds, direct comms and rendez-vous comms with optional "
+                  "rate, sleeps, Activity::suspend/resume, Actor::suspend/resume from another actor, Exec::update_priority and Host::set_pstate while "
+                  "activities run, equal activities started together, round durations so that completions tie, 1e-6..1 flop and 1e2..1e5 s "
+                  "activities). Every workload runs under cpu/optim in {Lazy, Full+selective update, Full} x network/optim in {Lazy, Full+selective "
+                  "update, Full} (9 runs), and the workloads restricted to what the TI model accepts also under cpu/optim:TI x the three network "
+                  "settings (12 runs); a tenth of them also on the ASan+UBSan build. Each run logs, at the actor boundary and inside "
                   "Exec/Comm::on_start_cb/on_completion_cb, the start / finish / wait-return date of every activity, the end of every sleep and actor, "
                   "the date of every control action and the final clock. All dates of a run must equal those of the Full/Full run of the same workload "
-                  "within precision/timing, and both runs must log the same events.",
+                  "within precision/timing, and both runs must log the same events (a comm that never completes, an abort or a sanitizer report under "
+                  "one configuration only is a disagreement). The earliest disagreeing completion is reported, keyed by activity kind and by the "
+                  "option(s) that differ from the reference.",
     "level_note": "Tolerance: |date - reference date| <= precision/timing (1e-9 s, the documented default, which is also the window in which the lazy "
                   "heap and update_max_duration merge events) + 4 ulp of the date per time advance of the run (each advance rounds now += delta and "
                   "remains -= rate*delta once). No term is fitted to what was observed; the largest deviation seen is reported in the evidence "
-                  "(worst_deviation_over_tolerance). A workload whose reference run has a control instant (guarded by 'is the target still running?') "
-                  "within 1e-7 s of a completion is not judged: its control flow depends on a comparison below the precision. State (on/off) profiles, "
-                  "disks, ptasks and VMs are not part of the workloads. S4U has no way to change the bound of a running exec: bound changes happen "
-                  "through Host::set_pstate (which re-bounds every running exec of the host) and speed / bandwidth profiles.",
+                  "(worst_deviation_over_tolerance, about 0.1 on the unchanged tree). Not judged (counted in the evidence): a workload whose reference "
+                  "run evaluates a guarded control ('is the target still running?') within 1e-7 s of the completion of its target, or has two "
+                  "simultaneously pending completions at distinct dates closer than 4e-9 s (the program's control flow / the merging of events then "
+                  "legitimately depends on comparisons below the precision); a workload on which SimGrid aborts under every configuration alike. "
+                  "Workloads exposed to an open known finding (oracles/optim.py: exposure) carry 'exposed=<finding>' instead of their feature list in "
+                  "their keys, so that only those are matched by the key_globs of known_findings.d/C19.json; C19_NO_EXPOSURE=1 turns that off (used to "
+                  "validate the proposed fixes). State (on/off) profiles, disks, ptasks and VMs are not part of the workloads. S4U cannot change the "
+                  "bound of a running exec: bounds change through Host::set_pstate (which re-bounds every running exec of the host) and speed / "
+                  "bandwidth profiles. Comm::set_rate is refused on Comm::sendto_init comms, so rates are only set on rendez-vous comms. Bandwidth "
+                  "profiles run with network/crosstraffic:0 and Actor::suspend only targets actors without asynchronous activities (two "
+                  "configuration-independent aborts of SimGrid, see gen/optim.py).",
     "rule": "case = one workload under one non-reference configuration, compared with the reference run; non-trivial = distinct (workload, "
-            "configuration) where both runs completed, >= 3 activities overlapped others on a resource and >= 10 dates were compared",
+            "configuration) where both runs completed and agree, >= 3 activities overlapped others in time and >= 10 dates were compared",
     "assumptions": ["the Full update without selective update (cpu and network) is the reference configuration",
-                    "cpu/optim:TI domain = single-core hosts, no user bound, repeating speed profiles starting at date 0 (what cpu_ti.cpp asserts / integrates)"],
+                    "cpu/optim:TI domain = single-core hosts, no user bound, repeating speed profiles starting at date 0 (what cpu_ti.cpp asserts / integrates)",
+                    "workloads whose control flow or event merging depends on date comparisons below precision/timing are outside 'the same within precision'"],
     "ready": False,
 }
 
@@ -315,7 +325,7 @@ ASAN_CFGS = [REF, ("Lazy", "Lazy"), ("Fullsel", "Fullsel")]
 def plan(ctx):
     """[(workload, flavour, configurations or None for the whole matrix)]. The sanitizer flavour runs the agreeing directed workloads and one
     generated workload in ten under the reference, the default (Lazy/Lazy), the selective Full and, when applicable, the TI configuration."""
-    n = ctx.size(30, 1500)
+    n = ctx.size(30, 2500)
     items = []
     for name, w, cfgs in directed():
         items.append((w, "hooks", cfgs))
